@@ -14,7 +14,7 @@
 //! re-encoding, which the specification's own decoder Tdf.tla reads.)
 use crate::icy::unwrap_chunks;
 use crate::util::{guard, panic_site, rng, Args, Out};
-use icy_engine::{ansi, AttributedChar, BitFont, Buffer, BufferParser, Caret, FontGlyph, FontType, IceMode, SaveOptions, TextAttribute, TheDrawFont, FONT_NAMES, SAUCE_FONT_NAMES};
+use icy_engine::{ansi, editor::EditState, get_crc32, TextPane, AttributedChar, BitFont, Buffer, BufferParser, Caret, FontGlyph, FontType, IceMode, SaveOptions, TextAttribute, TheDrawFont, FONT_NAMES, SAUCE_FONT_NAMES};
 use rand::rngs::StdRng;
 use rand::Rng;
 use serde_json::{json, Value};
@@ -205,11 +205,41 @@ fn small_tdf(r: &mut StdRng) -> TdfIn {
     TdfIn { name: tdf_name(r, nl), t, sp: r.gen_range(0..=40), glyphs }
 }
 
+
+/// What the engine's own renderer draws for every defined glyph: [] (undefined) or [width, rows, crcHi, crcLo] with the CRC-32
+/// over the drawn cells (position, character, colours, attribute bits).  A second, independent view of the glyph data.
+fn render_digest(f: &TheDrawFont) -> Value {
+    Value::Array((33u8..=126).map(|code| {
+        if !f.has_char(code) { return json!([]); }
+        let mut ed = EditState::default();
+        match guard(|| f.render(&mut ed, code)) {
+            Ok(Some(size)) => {
+                let mut bytes: Vec<u8> = Vec::new();
+                let layer = &ed.get_buffer().layers[0];
+                for y in 0..layer.get_height() { for x in 0..layer.get_width() {
+                    let ch = layer.get_char((x, y));
+                    if ch.is_visible() {
+                        bytes.extend([x as u8, y as u8]);
+                        bytes.extend((ch.ch as u32).to_le_bytes());
+                        bytes.extend(ch.attribute.get_foreground().to_le_bytes());
+                        bytes.extend(ch.attribute.get_background().to_le_bytes());
+                        bytes.extend(ch.attribute.attr.to_le_bytes());
+                    }
+                } }
+                let crc = get_crc32(&bytes);
+                json!([size.width, size.height, crc >> 16, crc & 0xFFFF])
+            }
+            Ok(None) => json!([0, 0, 0, 0]),
+            Err(_) => json!([-1, -1, 0, 0]),
+        }
+    }).collect())
+}
+
 fn run_tdf(out: &mut Out, case: &str, cls: &str, fonts: &[TdfIn], single: bool) {
     let input: Vec<Value> = fonts.iter().map(tdf_in_value).collect();
     let built: Vec<TheDrawFont> = fonts.iter().map(build_tdf).collect();
     let mode = if single { "single" } else { "bundle" };
-    let mut ev = json!({"ev":"tdf","case":case,"cls":cls,"mode":mode,"r":"ok","site":"","in":input,"bytes":[],"out":[],"re":[]});
+    let mut ev = json!({"ev":"tdf","case":case,"cls":cls,"mode":mode,"r":"ok","site":"","in":input,"bytes":[],"out":[],"re":[],"rin":built.iter().map(render_digest).collect::<Vec<_>>(),"rout":[]});
     let saved = guard(|| if single { built[0].as_tdf_bytes() } else { TheDrawFont::create_font_bundle(&built) }.map_err(|e| e.to_string()));
     let bytes = match saved {
         Ok(Ok(b)) => b,
@@ -224,6 +254,7 @@ fn run_tdf(out: &mut Out, case: &str, cls: &str, fonts: &[TdfIn], single: bool) 
     };
     ev["out"] = Value::Array(back.iter().map(|f| json!({"name": f.name.as_bytes(), "type": tdf_type_no(f.font_type), "sp": f.spaces,
         "def": (33u8..=126).map(|c| f.has_char(c) as u8).collect::<Vec<_>>()})).collect());
+    ev["rout"] = Value::Array(back.iter().map(render_digest).collect());
     match guard(|| if back.is_empty() { Ok(vec![]) } else if single && back.len() == 1 { back[0].as_tdf_bytes() } else { TheDrawFont::create_font_bundle(&back) }.map_err(|e| e.to_string())) {
         Ok(Ok(b)) => ev["re"] = json!(b),
         Ok(Err(e)) => { ev["r"] = json!("re-err"); ev["site"] = json!(e); }
